@@ -104,7 +104,7 @@ def run_plan_checked(plan: dict, stats: Stats | None) -> tuple[bool, list[str]]:
     port = 10000 + shard * 1300 + (_case_no[0] % 12) * 100
     tmp = tempfile.mkdtemp(prefix="verif-c05-")
     p = dict(plan)
-    p.update({"port": port, "prefix": f"q{os.getpid() % 10000}x{_case_no[0] % 1000}", "marker": os.path.join(tmp, "marker"), "grace_s": 25})
+    p.update({"port": port, "prefix": f"q{os.getpid() % 10000}x{_case_no[0] % 1000}", "marker": os.path.join(tmp, "marker"), "grace_s": 45})
     try:
         out = realcluster.run_plan(p, DEADLINE_S)
         if out["verdict"] == "hang":
